@@ -119,7 +119,7 @@ class RealX(Real):
     # ------------------------------------------------------------------ calls
     def do(self, a, arg=None):
         s = self.session
-        if a in ("FQueryAll", "FQueryV", "FGet", "FRefresh", "FRead"):
+        if a in ("FQueryAll", "FQueryV", "FGet", "FRefresh", "FRead", "FQueryC"):
             r1 = super().do("Flush")
             ev, nsql, stmts = list(self.events), self.nsql, list(self.stmts)
             if r1 != "ok":
@@ -149,8 +149,29 @@ class RealX(Real):
                 return "obj:" + n
             self.newobj = res
             return "new"
+        if a == "QueryC":
+            from sqlalchemy import func, literal, select
+            kind, x = arg
+            t = T.__table__
+            fn = {
+                "lcols": lambda: [tuple(r) for r in s.query(t.c.id, t.c.v).order_by(t.c.id).all()],
+                "lcount": lambda: s.query(func.count(t.c.id)).scalar(),
+                "lfilt": lambda: s.query(literal(1)).select_from(t).filter(t.c.v == x).count(),
+                "ccols": lambda: [tuple(r) for r in s.execute(select(t.c.id, t.c.v).order_by(t.c.id)).all()],
+                "ccount": lambda: s.execute(select(func.count(t.c.id))).scalar(),
+                "ocols": lambda: [tuple(r) for r in s.execute(select(T.id, T.v).order_by(T.id)).all()],
+                "ocount": lambda: s.scalar(select(func.count(T.id))),
+            }[kind]
+            r, res = self.call(fn)
+            if r != "ok":
+                return r
+            if isinstance(res, list):
+                return "rows" + "".join(":%d=%d" % (k, nv(v)) for k, v in res)
+            return "n:%d" % res
         if a == "MergeTok":
             return self.merge_tok(arg)
+        if a == "RefreshV":
+            return self.call(lambda: s.refresh(self.objs[arg], ["v"]))[0]
         if a == "ExpireV":
             return self.call(lambda: s.expire(self.objs[arg], ["v"]))[0]
         if a == "Read":
@@ -340,10 +361,10 @@ class DriverX:
         a = act["a"]
         arg = act["arg"]
         r = self.real
-        if a in ("Add", "Delete", "Expunge", "Expire", "Refresh", "MakeTransient", "Get", "ExpireV", "Read", "DropRef",
+        if a in ("Add", "Delete", "Expunge", "Expire", "Refresh", "MakeTransient", "Get", "ExpireV", "RefreshV", "Read", "DropRef",
                  "ExtDel", "MergeTok", "QueryAll", "QueryV", "FQueryAll", "FQueryV", "FGet", "FRefresh", "FRead"):
             arg = arg[0]
-        elif a in ("SetV", "SetPk", "ExtSet", "Merge", "Pickle"):
+        elif a in ("SetV", "SetPk", "ExtSet", "Merge", "Pickle", "QueryC", "FQueryC"):
             arg = tuple(arg)
         else:
             arg = None
